@@ -107,7 +107,11 @@ class Gen:
         if kind == "dictsub":
             return DictSub(k0=1)
         if kind == "nonstrkey":
-            return {1: c.int("i"), "k0": 0} if c.flag("mixed") else {1: c.int("i")}
+            # non-string keys of several classes, alone, next to a string key, and two of them
+            # that cannot be ordered against each other (None / tuple / bytes)
+            how = c.choice(6, "keys")
+            i = c.int("i")
+            return [{1: i}, {1: i, "k0": 0}, {None: i}, {None: i, (1, 2): 0}, {(1, "a"): i, ("a", 1): 0, "k0": 0}, {b"k": i}][how]
         if kind == "inf":
             return float("inf") if c.flag("pos") else float("-inf")
         if kind == "nan":
@@ -448,6 +452,9 @@ def containers(x, acc=None):
         for v in x.values():
             containers(v, acc)
     elif dc.is_dataclass(x) and not isinstance(x, type):
+        d = getattr(x, "__dict__", None)
+        if type(d) is dict:  # the attribute dict of an instance is a mutable container too
+            acc[id(d)] = d
         for f in dc.fields(x):
             containers(getattr(x, f.name, None), acc)
     return acc
